@@ -747,6 +747,7 @@ def m_bool_to_string(ex, callee, args):
     if s is None:
         s = S.s_ite(b, b'true', b'false')
         ex.uni.memo[key] = s
+        ex.uni.alive.append(b)
     return StrV(s)
 
 
@@ -766,6 +767,7 @@ def num_to_string(ex, kind, v):
         cap = getattr(ex.uni, 'numstr_cap', 3)
         s = S.fresh('str(%s)' % kind, cap, ex.uni.axioms, ascii_only=True, min_len=1)
         ex.uni.memo[key] = s
+        ex.uni.alive.append(t)
         # injective rendering: equal text <=> equal number (also across i64/u64)
         allk = ex.uni.memo.setdefault(('num_str_all',), [])
         for (k2, t2, s2) in allk:
@@ -854,6 +856,7 @@ def m_parse_f64(ex, callee, args):
         val = ex.uni.fresh('parse_f64_val', z3.Float64())
         ent = (okb, val, s)
         ex.uni.memo[key] = ent
+        ex.uni.alive.append(s)
     if ex.branch(ent[0]):
         return ok(FP(ent[1]))
     return err(Opaque('ParseFloatError'))
@@ -942,6 +945,7 @@ def parse_int_terms(uni, s, ty):
                 value = z3.If(c, val, value)
         ent = (z3bool(valid), value)
         uni.memo[key] = ent
+        uni.alive.append(s)
     return ent
 
 
